@@ -240,7 +240,8 @@ def environments(prog, reduced=False):
 def execute(prog, env, schedule=None, requested=('a',), no_prompt=False, forms=None):
     forms = forms or build_forms(prog)
     ans = None if no_prompt else world.scripted_answer(env['answers'])
-    return world.run_solve(forms, list(requested), env['file'], answer=ans, schedule=schedule)
+    # generated programs have at most a handful of lines: three seconds of processor time is a thousand times what one needs
+    return world.run_solve(forms, list(requested), env['file'], answer=ans, schedule=schedule, cpu_seconds=3)
 
 
 def reference(prog, final_inputs, requested=('a',), forms=None):
